@@ -43,11 +43,34 @@ thread_local! {
 /// names its input.
 pub fn mark(line: &str) {
     use std::io::{Seek, SeekFrom, Write};
+    LAST_MARK_MS.store(START.get_or_init(std::time::Instant::now).elapsed().as_millis() as u64, std::sync::atomic::Ordering::Relaxed);
     MARK.with(|m| {
         if let Some(f) = m.borrow_mut().as_mut() {
             let _ = f.seek(SeekFrom::Start(0));
             let _ = f.set_len(0);
             let _ = f.write_all(line.as_bytes());
+        }
+    });
+}
+
+static START: std::sync::OnceLock<std::time::Instant> = std::sync::OnceLock::new();
+static LAST_MARK_MS: std::sync::atomic::AtomicU64 = std::sync::atomic::AtomicU64::new(0);
+
+/// exit code of a run stopped by the watchdog
+pub const HANG_EXIT: i32 = 124;
+
+/// A case that runs longer than `limit_secs` of wall-clock time WITHOUT taking engine steps (the step budget
+/// turns a diverging SEARCH into a reportable outcome; this catches loops outside the engine, e.g. walking a
+/// cyclic substitution) ends the process with `HANG_EXIT`; the mark file names the case.
+pub fn start_watchdog(limit_secs: u64) {
+    let _ = START.get_or_init(std::time::Instant::now);
+    std::thread::spawn(move || loop {
+        std::thread::sleep(std::time::Duration::from_millis(500));
+        let now = START.get().unwrap().elapsed().as_millis() as u64;
+        let last = LAST_MARK_MS.load(std::sync::atomic::Ordering::Relaxed);
+        if last > 0 && now.saturating_sub(last) > limit_secs * 1000 {
+            eprintln!("WATCHDOG: the current case has been running for more than {} s", limit_secs);
+            std::process::exit(HANG_EXIT);
         }
     });
 }
